@@ -21,9 +21,9 @@ type Verdict struct {
 	Sig  string // what failed (not the input): the identity of a finding
 	Msg  string
 
-	Desc       string   // canonical descriptor for distinctness ("" = JSON of the case)
-	NonTrivial bool     // by the part's stated rule
-	Labels     []string // classification of the case, for the histogram
+	Desc       string           // canonical descriptor for distinctness ("" = JSON of the case)
+	NonTrivial bool             // by the part's stated rule
+	Labels     []string         // classification of the case, for the histogram
 	Counts     map[string]int64 // extra counters (e.g. records inside a grouped case)
 }
 
